@@ -1104,7 +1104,16 @@ def handle (line : String) : String :=
     | ["parse", hx] =>
       match unhex hx with
       | some v =>
-        if !isAsciiBytes v then "SKIP non-ascii" else
+        if !isAsciiBytes v then
+          -- outside ASCII: the type and the error class from the model for arbitrary bytes (the parameters' values
+          -- are not compared there)
+          let r := MTU.parseU v
+          let cls := match r.2 with
+            | .none => "none" | .invalidParam => "invalidParam" | .noType => "noType" | .duplicate => "duplicate"
+          match goRes.splitOn "|" with
+          | [t, _, c] => if t == bhex r.1 && c == cls then "OK" else s!"DIFF parse-unicode model={bhex r.1}|{cls}"
+          | _ => "BAD parse result"
+        else
         let m := showParse (MT.parse v)
         if m == goRes then "OK" else s!"DIFF parse model={m}"
       | none => "BAD args"
